@@ -69,7 +69,7 @@ theorem walk_defines (P : IParams RCtx) (x : XS) (hpm : x.pm = none) (defs : Lis
     exact ih (fun d' hd' => h d' (by simp [hd']))
 
 def ctxMol (m : Mol) : RCtx :=
-  { base := { name := some m.moltype }, nrexcl := some m.nrexcl }
+  { base := { name := some m.moltype, nrexcl := some ((pyInt? m.nrexcl).getD 0) }, nrexcl := some m.nrexcl }
 
 theorem walk_prelude (F : TabFacts tab idxTab tbl) (m : Mol) (hc : C02.CharFacts m)
     (hr : RepoFacts (tab.map (·.path)) m) (hmol : hdrName "moleculetype" = "moleculetype") :
